@@ -55,8 +55,9 @@ def random_itier(rng, maxn=10, tmax=60, labels=LABELS, name="tier", tight=None, 
     """Random wf interval tier: sorted, disjoint (touching with prob.), inside span."""
     u = rng.random() if long_p else 1.0
     if u < long_p:
-        # rarely a tier with far more entries than any short-cut for "small" tiers would expect (> 64, > 128)
-        n = rng.randint(66, 140)
+        # rarely a tier with far more entries than any short-cut for "small" tiers would expect (> 64, > 128; now and
+        # then > 256, > 512, > 1024)
+        n = rng.randint(66, 140) if rng.random() < 0.8 else rng.randint(260, 1150)
         tmax = max(tmax, 3 * n)
     elif tmax >= 30 and rng.random() < 0.04:
         maxn = max(maxn, 12)         # now and then a tier long enough for two-digit indices
@@ -85,7 +86,7 @@ def random_itier(rng, maxn=10, tmax=60, labels=LABELS, name="tier", tight=None, 
 def random_ptier(rng, maxn=10, tmax=60, labels=LABELS, name="pts", distinct=True, long_p=0.0):
     u = rng.random() if long_p else 1.0
     if u < long_p:
-        n = rng.randint(66, 140)
+        n = rng.randint(66, 140) if rng.random() < 0.8 else rng.randint(260, 1300)
         tmax = max(tmax, 2 * n)
     elif tmax >= 30 and rng.random() < 0.04:
         maxn = max(maxn, 12)
